@@ -31,12 +31,16 @@ ASSUMPTIONS = ["graphql-core's parser and validator are the reference", "a requi
 
 SCALARS = ["Int", "Float", "String", "Boolean", "ID"]
 CUSTOM = ["Date", "DateTime", "Time", "UUID", "IP", "IPv4", "IPv6", "BigInt", "Long"]
+# scalars the *user* registers through schemathesis.graphql.scalar(name, strategy); the strategy is one of two variants so
+# that a re-registration under the same name is visible in the literals
+USER_SCALARS = ["Even", "Slug"]
 
 
 @st.composite
 def sdl(draw):
     n_enum, n_input, n_obj = draw(st.integers(0, 2)), draw(st.integers(0, 3)), draw(st.integers(1, 3))
-    used_custom = draw(st.lists(st.sampled_from(CUSTOM), max_size=3, unique=True))
+    used_custom = draw(st.lists(st.sampled_from(CUSTOM + USER_SCALARS), max_size=3, unique=True))
+    query_root, mutation_root = draw(st.sampled_from([("Query", "Mutation"), ("Query", "Mutation"), ("RootQuery", "RootMutation"), ("QueryRoot", "Mutations"), ("Mutation", "Query")]))
     enums = {f"E{i}": [f"V{i}{j}" for j in range(draw(st.integers(1, 3)))] for i in range(n_enum)}
     in_names = [f"In{i}" for i in range(n_input)]
 
@@ -86,14 +90,18 @@ def sdl(draw):
         names.append(name)
         return f"{name}{a}: {r}"
 
-    lines.append("type Query { " + " ".join(field(draw(st.sampled_from(["q", "get", "list"]))) for _ in range(draw(st.integers(1, 3)))) + " }")
+    lines.append(f"type {query_root} {{ " + " ".join(field(draw(st.sampled_from(["q", "get", "list"]))) for _ in range(draw(st.integers(1, 3)))) + " }")
     if draw(st.booleans()):
         query_names = list(names)
         mutation_fields = [field(draw(st.sampled_from(["m", "create", "get"]))) for _ in range(draw(st.integers(1, 2)))]
         if draw(st.booleans()):
             # the two roots are separate namespaces: a mutation may be called like a query
             mutation_fields.append(field("m", name=draw(st.sampled_from(query_names))))
-        lines.append("type Mutation { " + " ".join(mutation_fields) + " }")
+        lines.append(f"type {mutation_root} {{ " + " ".join(mutation_fields) + " }")
+        if (query_root, mutation_root) != ("Query", "Mutation"):
+            lines.append(f"schema {{ query: {query_root} mutation: {mutation_root} }}")
+    elif query_root != "Query":
+        lines.append(f"schema {{ query: {query_root} }}")
     if draw(st.integers(0, 2)) == 0:
         lines.append("type Subscription { " + " ".join(field("on") for _ in range(draw(st.integers(1, 2)))) + " }")
     return "\n".join(lines)
@@ -102,7 +110,10 @@ def sdl(draw):
 @st.composite
 def graphql_case(draw):
     configs = draw(st.lists(st.fixed_dictionaries({"graphql_allow_null": st.booleans(), "allow_x00": st.booleans(), "codec": st.sampled_from(["utf-8", "utf-8", "ascii"])}), min_size=1, max_size=3))
-    flt = draw(st.sampled_from([None, None, ["include", "name_regex", "get"], ["exclude", "name_regex", "^Mutation"], ["include", "name_regex", "^Query\\."], ["exclude", "name_regex", "1$"]]))
+    flt = draw(st.sampled_from([None, None, ["include", "name_regex", "get"], ["exclude", "name_regex", "^Mutation"], ["include", "name_regex", "^Query\\."], ["exclude", "name_regex", "1$"], ["include", "name_regex", "Root"],
+                                ["include", "name_pick", draw(st.integers(0, 5))], ["exclude", "name_pick", draw(st.integers(0, 5))], ["include", "name_list", draw(st.integers(0, 5))], ["exclude", "name_list", draw(st.integers(0, 5))]]))
+    for c in configs:
+        c["user_scalars"] = draw(st.sampled_from(["a", "a", "b"]))
     return {"sdl": draw(sdl()), "via": draw(st.sampled_from(["sdl", "json"])), "configs": configs, "filter": flt, "draws": 6}
 
 
@@ -132,6 +143,30 @@ def scalar_ok(name: str, node) -> bool:
         return False
 
 
+def register_user_scalars(variant: str) -> None:
+    """Even: even integers (variant a) / multiples of 1000 written as strings (variant b); Slug: `slug-<n>` / `SLUG_<n>`."""
+    import schemathesis
+    from schemathesis.graphql import nodes
+
+    if variant == "a":
+        schemathesis.graphql.scalar("Even", st.integers(-50, 50).map(lambda n: nodes.Int(2 * n)))
+        schemathesis.graphql.scalar("Slug", st.integers(0, 99).map(lambda n: nodes.String(f"slug-{n}")))
+    else:
+        schemathesis.graphql.scalar("Even", st.integers(-5, 5).map(lambda n: nodes.String(str(1000 * n))))
+        schemathesis.graphql.scalar("Slug", st.integers(0, 99).map(lambda n: nodes.String(f"SLUG_{n}")))
+
+
+def user_scalar_ok(name: str, variant: str, node) -> bool:
+    import graphql
+
+    v = getattr(node, "value", None)
+    if name == "Even":
+        if variant == "a":
+            return isinstance(node, graphql.IntValueNode) and int(v) % 2 == 0 and abs(int(v)) <= 100
+        return isinstance(node, graphql.StringValueNode) and re.fullmatch(r"-?\d+", v) is not None and int(v) % 1000 == 0
+    return isinstance(node, graphql.StringValueNode) and re.fullmatch(r"slug-\d+" if variant == "a" else r"SLUG_\d+", v) is not None
+
+
 def check_graphql(ctx: Ctx, inp) -> None:
     import graphql
     import schemathesis
@@ -140,6 +175,7 @@ def check_graphql(ctx: Ctx, inp) -> None:
     from vfw.props import c01
 
     text = inp["sdl"]
+    register_user_scalars("a")
     try:
         gs = graphql.build_schema(text)
     except Exception as exc:  # noqa: BLE001
@@ -153,14 +189,22 @@ def check_graphql(ctx: Ctx, inp) -> None:
         schema = schemathesis.graphql.from_dict(json.loads(json.dumps(intro)))
     schema = schema.configure(base_url="http://127.0.0.1:1/graphql")
     flt = inp["filter"]
+    roots = [(t.name, f) for t in (gs.query_type, gs.mutation_type) if t for f in t.fields]
+    labels = [f"{t}.{f}" for t, f in roots]
+    if flt and flt[1] == "name_pick":  # the exact label of one offered operation (whatever the root types are called)
+        flt = [flt[0], "name", labels[flt[2] % len(labels)]]
+    elif flt and flt[1] == "name_list":
+        flt = [flt[0], "name", sorted({labels[flt[2] % len(labels)], labels[(flt[2] + 1) % len(labels)]})]
     if flt:
         schema = getattr(schema, flt[0])(**{flt[1]: flt[2]})
-    roots = [(t.name, f) for t in (gs.query_type, gs.mutation_type) if t for f in t.fields]
 
     def passes(label):
         if not flt:
             return True
-        hit = re.search(flt[2], label) is not None
+        if flt[1] == "name":
+            hit = label == flt[2] if isinstance(flt[2], str) else label in flt[2]
+        else:
+            hit = re.search(flt[2], label) is not None
         return hit if flt[0] == "include" else not hit
 
     expected = sorted(f"{t}.{f}" for t, f in roots if passes(f"{t}.{f}"))
@@ -178,6 +222,7 @@ def check_graphql(ctx: Ctx, inp) -> None:
         arg_types = [str(a.type) for a in fdef.args.values()]
         nontrivial = any(re.sub(r"[\[\]!]", "", t) not in SCALARS or "[" in t for t in arg_types)
         for position, c in enumerate(inp["configs"]):
+            register_user_scalars(c.get("user_scalars", "a"))
             cfg = GenerationConfig(graphql_allow_null=c["graphql_allow_null"], allow_x00=c["allow_x00"], codec=c["codec"])
             cases, outcome = c01.draw_cases(op, GenerationMode.POSITIVE, cfg, inp.get("draws", 6), derive_seed("c20", h(inp), op.label, position))
             if outcome != "ok" and not cases:
@@ -227,6 +272,9 @@ def check_graphql(ctx: Ctx, inp) -> None:
                         if named is not None and named.name in CUSTOM and isinstance(node, (graphql.StringValueNode, graphql.IntValueNode)):
                             if not scalar_ok(named.name, node):
                                 problems.append((f"custom-scalar-literal-invalid:{named.name}", repr(getattr(node, "value", None))))
+                        if named is not None and named.name in USER_SCALARS and isinstance(node, graphql.ValueNode) and not isinstance(node, (graphql.NullValueNode, graphql.ListValueNode)):
+                            if not user_scalar_ok(named.name, c.get("user_scalars", "a"), node):
+                                problems.append((f"registered-scalar-literal-not-from-the-registered-strategy:{named.name}", repr(getattr(node, "value", None)) + f" (variant {c.get('user_scalars', 'a')})"))
 
                     def leave(self, node, *args):
                         info.leave(node)
@@ -245,6 +293,6 @@ FLOOR = {"graphql": 1000}
 MANIFEST = {
     "category": "exploration",
     "technique": "grammar-generated GraphQL SDL x loading route x settings sequences; every drawn query validated by graphql-core and structural / value predicates",
-    "text": "SDL documents from a grammar (enums, nested input objects, lists, non-null, interfaces, unions, shipped custom scalars, Query / Mutation / Subscription roots) are loaded as SDL or introspection JSON; for each offered operation cases are drawn under a sequence of settings (nulls on/off, allow_x00, codec) applied to the same schema object; each body must parse, validate, contain exactly one operation of the right kind selecting exactly the field under test, use parseable custom scalar literals and respect the null / NUL / codec settings in force; offered operations and statistic counts must equal the Query and Mutation root fields that pass the name filters.",
-    "note": "Trusts graphql-core. Custom scalars registered by users (schemathesis.graphql.scalar) are not exercised.",
+    "text": "SDL documents from a grammar (enums, nested input objects, lists, non-null, interfaces, unions, shipped custom scalars and user-registered ones whose strategy is re-registered between draws, Query / Mutation / Subscription roots incl. renamed root types) are loaded as SDL or introspection JSON; for each offered operation cases are drawn under a sequence of settings (nulls on/off, allow_x00, codec) applied to the same schema object; each body must parse, validate, contain exactly one operation of the right kind selecting exactly the field under test, use parseable custom scalar literals and respect the null / NUL / codec settings in force; offered operations and statistic counts must equal the query and mutation root fields that pass the name filters (regex, exact name, list of names).",
+    "note": "Trusts graphql-core.",
 }
